@@ -118,6 +118,7 @@ def genJson : Json :=
               ("pruneDropsUsed", GqlgenVerif.Gen.PruneFacts.dropsUsed),
               ("pruneNeverUnused", Json.arr (GqlgenVerif.Gen.PruneFacts.neverUnused.map Json.str).toArray),
               ("reserveCollisionKey", toString (repr GqlgenVerif.Gen.ReserveFacts.collisionKey)),
+              ("reserveCollisionExempt", Json.arr (GqlgenVerif.Gen.ReserveFacts.collisionExempt.map Json.str).toArray),
               ("rewriterCacheForm", toString (repr GqlgenVerif.Gen.ReserveFacts.cacheForm))]
 
 def step (line : String) : String :=
